@@ -382,6 +382,11 @@ func (b *Broker) handleConn(conn net.Conn) {
 	err = connack.Write(conn)
 	if err != nil {
 		logger.SpanErrorf(nil, "send connack to client %s failed: %s", connect.ClientIdentifier, err)
+		// the connection is registered and has a session already, and no read loop will ever
+		// tear it down: do that here, the same way the read loop does it. Both steps check that
+		// the connection has not been superseded by a newer one with the same client id.
+		client.closeAndDelSession()
+		b.removeClient(cid)
 		return
 	}
 
